@@ -87,6 +87,7 @@ pub fn setup(cfg: &EpCfg, opts: penguin_mux::config::Options, link_cfg: &LinkCfg
     };
     let link = Link::new(link_cfg.window.max(1), link_cfg.latency_ms, seq.clone(), lat_seed ^ 0x50f0);
     link.lock().unwrap().drop_data_after_close_sent = link_cfg.drop_after_close;
+    link.lock().unwrap().waits_for_transport_close = [link_cfg.ws_client == 1, false];
     let world = Rc::new(RefCell::new(LinkWorld::new(link.clone())));
     let mut sim = Sim::new(sched, weights, record, world.clone(), seq.clone());
     let rng = ScriptRng { vals: Arc::new(Mutex::new(cfg.ids.iter().copied().collect())), base: 1 << 28, ctr: 0 };
@@ -1054,5 +1055,126 @@ async fn run_c16_async(plan: C16Plan, sched: Sched, record: bool) -> Outcome {
         o.probe("pings-without-timeout", 1);
     }
     o.nontrivial = pings.len() >= 3;
+    o
+}
+
+// =================================================================== C07 (raw peer rejecting proposals)
+
+#[derive(Serialize, Deserialize, Clone, Debug)]
+pub struct C07RawPlan {
+    pub ep: EpCfg,
+    pub link: LinkCfg,
+    pub weights: [u32; NCLS],
+    /// the peer answers the first `reject` Connect frames with Reset, later ones with Acknowledge(peer_rwnd)
+    pub reject: usize,
+    pub peer_rwnd: u32,
+    /// concurrent open calls
+    pub opens: usize,
+    pub yields: usize,
+}
+pub fn run_c07_raw(plan: &C07RawPlan, sched: &Sched, record: bool) -> Outcome {
+    block_on(run_c07_raw_async(plan.clone(), sched.clone(), record))
+}
+async fn run_c07_raw_async(plan: C07RawPlan, sched: Sched, record: bool) -> Outcome {
+    let mut s = setup(&plan.ep, plan.ep.options(), &plan.link, plan.weights, &sched, record, RxPolicy { ack_pushes: false, ack_req_connects: None }, Rc::new(RefCell::new(vec![])));
+    let results: Rc<RefCell<Vec<(usize, String)>>> = Default::default();
+    let held: Rc<RefCell<Vec<penguin_mux::MuxStream>>> = Default::default();
+    for k in 0..plan.opens.max(1) {
+        let (m, res, held) = (s.mux.clone(), results.clone(), held.clone());
+        s.sim.spawn(&format!("open{k}"), CLS_OTHER, async move {
+            let host = format!("o{k}");
+            let r = m.new_stream_channel(host.as_bytes(), k as u16).await;
+            res.borrow_mut().push((k, match r {
+                Ok(st) => {
+                    held.borrow_mut().push(st);
+                    "Ok".into()
+                }
+                Err(e) => format!("{e:?}"),
+            }));
+        });
+    }
+    // the peer: answers Connects in arrival order
+    let decisions: Rc<RefCell<Vec<(u32, Vec<u8>, bool)>>> = Default::default();
+    {
+        let (raw, peer, plan2, dec) = (s.raw.clone(), s.peer.clone(), plan.clone(), decisions.clone());
+        s.sim.spawn("peer-tx", CLS_OTHER, async move {
+            let mut seen = 0usize;
+            loop {
+                if !wait_until(&peer, |p| p.ep_connects.len() > seen).await {
+                    break;
+                }
+                let (id, host) = peer.borrow().ep_connects[seen].clone();
+                seen += 1;
+                sim_yields(plan2.yields).await;
+                let reject = seen <= plan2.reject;
+                dec.borrow_mut().push((id, host, reject));
+                if reject {
+                    raw.borrow_mut().send(RFrame::Reset { id });
+                } else {
+                    raw.borrow_mut().send(RFrame::Ack { id, n: plan2.peer_rwnd.max(1) });
+                }
+            }
+        });
+    }
+    let end = s.sim.run(1_000_000, crate::duo::HORIZON).await;
+    let mut o = Outcome { digest: s.sim.digest.0 ^ s.seq.now(), steps: s.sim.steps, decisions: s.sim.decisions.take().unwrap_or_default(), ..Default::default() };
+    if end != End::Quiescent {
+        o.violate("HARNESS:step-budget", "no quiescence".into());
+        return o;
+    }
+    let dec = decisions.borrow();
+    let res = results.borrow();
+    let retries = plan.ep.retries.max(1);
+    let desc = format!("max_flow_id_retries={retries}, peer rejects the first {} Connects, {} concurrent opens: Connects (id, host, rejected) = {:?}, results = {:?}", plan.reject, plan.opens, dec.iter().map(|d| (d.0, String::from_utf8_lossy(&d.1).to_string(), d.2)).collect::<Vec<_>>(), *res);
+    o.note = desc.clone();
+    if s.task_end.borrow().is_some() {
+        o.violate("C07:connection-ended", format!("the connection task returned; {desc}"));
+    }
+    // ids: never 0, never an id that is live or pending at the sender
+    let mut in_use: Vec<u32> = vec![];
+    let mut pending: Vec<u32> = vec![];
+    for (id, _, rejected) in dec.iter() {
+        if *id == 0 {
+            o.violate("C07:connect-id-zero", format!("the endpoint proposed flow id 0; {desc}"));
+        }
+        // at the time of this Connect: ids of established streams are live; ids of earlier Connects that
+        // the peer has not answered yet were pending (we answer in order, so all earlier ones are answered)
+        if in_use.contains(id) || pending.contains(id) {
+            o.violate("C07:connect-id-in-use", format!("the endpoint proposed flow id {id:x} which it already uses; {desc}"));
+        }
+        if !*rejected {
+            in_use.push(*id);
+        }
+    }
+    let _ = &mut pending;
+    for k in 0..plan.opens.max(1) {
+        let host = format!("o{k}").into_bytes();
+        let mine: Vec<&(u32, Vec<u8>, bool)> = dec.iter().filter(|d| d.1 == host).collect();
+        let r = res.iter().find(|x| x.0 == k).map(|x| x.1.as_str());
+        let rejected = mine.iter().filter(|d| d.2).count();
+        let accepted = mine.iter().filter(|d| !d.2).count();
+        if mine.len() > retries {
+            o.violate("C07:retry-count", format!("open {k}: {} Connect frames for one request; {desc}", mine.len()));
+        }
+        match r {
+            Some("Ok") => {
+                if accepted != 1 {
+                    o.violate("C07:open-ok-without-ack", format!("open {k} succeeded but {accepted} of its Connects were acknowledged; {desc}"));
+                }
+                if rejected > 0 {
+                    o.probe("open-succeeded-after-retry", 1);
+                }
+            }
+            Some(e) if e.contains("FlowIdRejected") => {
+                o.probe("flow-id-rejected", 1);
+                if rejected != retries || accepted != 0 {
+                    o.violate("C07:retry-count", format!("open {k} failed with FlowIdRejected after {rejected} rejected Connects (and {accepted} acknowledged), max_flow_id_retries = {retries}; {desc}"));
+                }
+            }
+            Some(e) => o.violate("C07:open-error", format!("open {k} failed with {e}; {desc}")),
+            None => o.violate("C07:open-unresolved", format!("open {k} still pending at quiescence; {desc}")),
+        }
+    }
+    o.nontrivial = dec.iter().any(|d| d.2);
     o
 }
